@@ -150,6 +150,13 @@ Definition mc_rows (incl : bool) (a : add_in) : list row :=
   map (fun j => [mc_mask incl a j]) (zseq (max_waves a)).
 
 (* ------------------------------------------------------------------ writer state *)
+(* An analysis dataset (create_analysis_dataset) with its column of the index table
+   (add_analysis_indices): the dataset exists / its rows / the column exists / the index
+   entries written so far, newest first (event number, (start, length)); events without an
+   entry read the zero-filled cell (0, 0).  add() never touches it (it is not in _counters). *)
+Record astate := mkA { a_ex : bool; a_rows : list row; a_col : bool; a_ent : list (Z * (Z * Z)) }.
+Definition ana0 : astate := mkA false [] false [].
+
 Record wstate := mkW {
   rowsOf : per (list row);     (* dataset contents *)
   cntOf : per Z;               (* _counters[table] *)
@@ -157,17 +164,18 @@ Record wstate := mkW {
   cols : list tid;             (* attrs['keys'] of /event_indices, in order *)
   idx : list (per (Z * Z));    (* /event_indices rows; absent columns read (0,0) *)
   nidx : Z;                    (* _counters['indices'] *)
-  thrown : option Z            (* attrs['total_thrown'] of the particles group *)
+  thrown : option Z;           (* attrs['total_thrown'] of the particles group *)
+  ana : astate                 (* one analysis dataset and its index column *)
 }.
 Definition init_state : wstate :=
-  mkW (per_all []) (per_all 0) (per_all false) [] [] 0 None.
+  mkW (per_all []) (per_all 0) (per_all false) [] [] 0 None ana0.
 
 Definition set_rows (st : wstate) (t : tid) (r : list row) : wstate :=
-  mkW (set (rowsOf st) t r) (cntOf st) (exOf st) (cols st) (idx st) (nidx st) (thrown st).
+  mkW (set (rowsOf st) t r) (cntOf st) (exOf st) (cols st) (idx st) (nidx st) (thrown st) (ana st).
 Definition set_cnt (st : wstate) (t : tid) (c : Z) : wstate :=
-  mkW (rowsOf st) (set (cntOf st) t c) (exOf st) (cols st) (idx st) (nidx st) (thrown st).
+  mkW (rowsOf st) (set (cntOf st) t c) (exOf st) (cols st) (idx st) (nidx st) (thrown st) (ana st).
 Definition set_thrown (st : wstate) (v : option Z) : wstate :=
-  mkW (rowsOf st) (cntOf st) (exOf st) (cols st) (idx st) (nidx st) v.
+  mkW (rowsOf st) (cntOf st) (exOf st) (cols st) (idx st) (nidx st) v (ana st).
 
 Definition zero_cells : per (Z * Z) := per_all (0, 0).
 (* h5py resize of the first axis: truncate or zero-fill (zero rows are written [] here; they are
@@ -177,7 +185,7 @@ Definition resize_rows (r : list row) (n : Z) : list row :=
 (* _create_dataset / _create_metadataset followed by resize(counter, axis=0) *)
 Definition create_resize (st : wstate) (t : tid) : wstate :=
   mkW (set (rowsOf st) t (resize_rows (get (rowsOf st) t) (get (cntOf st) t))) (cntOf st)
-      (set (exOf st) t true) (cols st) (idx st) (nidx st) (thrown st).
+      (set (exOf st) t true) (cols st) (idx st) (nidx st) (thrown st) (ana st).
 (* dataset[start + i] = rows[i] *)
 Definition put_rows (st : wstate) (t : tid) (start : Z) (new : list row) : wstate :=
   let old := get (rowsOf st) t in
@@ -198,7 +206,7 @@ Definition write_indices (st : wstate) (t : tid) (start len : Z) : wstate :=
   if negb (get (exOf st) t) then st
   else mkW (rowsOf st) (cntOf st) (exOf st)
            (if existsb (tid_eqb t) (cols st) then cols st else cols st ++ [t])
-           (set_cell (idx st) (nidx st) t (start, len)) (nidx st) (thrown st).
+           (set_cell (idx st) (nidx st) t (start, len)) (nidx st) (thrown st) (ana st).
 (* _preset_all_indices: iteration order of self._counters *)
 Definition preset (st : wstate) : wstate :=
   fold_left (fun s t => write_indices s t (get (cntOf s) t) 0) [W; T; P; R; M; N] st.
@@ -321,7 +329,8 @@ Definition rollback (snap st' : wstate) : wstate :=
       (cntOf snap) (exOf st') (cols st')
       (if nidx snap <? zlen (idx st') then firstn (Z.to_nat (nidx snap)) (idx st') else idx st')
       (nidx snap)
-      (if get (exOf st') P then thrown snap else thrown st').
+      (if get (exOf st') P then thrown snap else thrown st')
+      (ana st').
 
 Inductive outcome := Acc | Rej (e : exn).
 Definition outcome_code (x : outcome) : Z := match x with Acc => 0 | Rej e => exn_code e end.
@@ -334,20 +343,39 @@ Definition add (o : opts) (d : Z) (hd : bool) (st : wstate) (a : add_in) : wstat
   if wR o && (is_none (a_rays a) || pols_none (a_pols a)) then (st, Rej EValue)
   else if any_trig_only o && trig_none (a_trig a) then (st, Rej EValue)
   else match body o d hd st a with
-       | Ok st' => (mkW (rowsOf st') (cntOf st') (exOf st') (cols st') (idx st') (nidx st' + 1) (thrown st'), Acc)
+       | Ok st' => (mkW (rowsOf st') (cntOf st') (exOf st') (cols st') (idx st') (nidx st' + 1) (thrown st') (ana st'), Acc)
        | Err st' e => (rollback st st', Rej e)
        end.
 
 (* HDF5Writer.open in mode 'a' on an existing file: counters recovered from the dataset shapes *)
 Definition reopen (st : wstate) : wstate :=
   mkW (rowsOf st) (per_map (fun t r => if get (exOf st) t then zlen r else 0) (rowsOf st))
-      (exOf st) (cols st) (idx st) (zlen (idx st)) (thrown st).
+      (exOf st) (cols st) (idx st) (zlen (idx st)) (thrown st) (ana st).
 
 Inductive op := Add (a : add_in) | Reopen.
 Definition step (o : opts) (d : Z) (hd : bool) (st : wstate) (x : op) : wstate :=
   match x with Add a => fst (add o d hd st a) | Reopen => reopen st end.
 Definition run (o : opts) (d : Z) (hd : bool) (ops : list op) : wstate :=
   fold_left (step o d hd) ops init_state.
+
+(* ------------------------------------------------------------------ analysis pass (mode 'a') *)
+(* create_analysis_dataset(name, shape=(len rows, w)) + filling it | add_analysis_indices(name, gi, start, len) *)
+Inductive aop := ACreate (rws : list row) | AIndex (gi start len : Z).
+Definition set_ana (st : wstate) (a : astate) : wstate :=
+  mkW (rowsOf st) (cntOf st) (exOf st) (cols st) (idx st) (nidx st) (thrown st) a.
+Definition ana_step (st : wstate) (x : aop) : wstate :=
+  let a := ana st in
+  match x with
+  | ACreate rws => if a_ex a then st else set_ana st (mkA true rws (a_col a) (a_ent a))
+  | AIndex gi start len =>
+    (* _write_indices(location, start, len, global_index_value=gi): nothing if the dataset does not
+       exist; creates the column; grows the index table (zero rows) up to row gi *)
+    if negb (a_ex a) then st
+    else let ix := if zlen (idx st) <=? gi then idx st ++ repeat zero_cells (Z.to_nat (gi + 1 - zlen (idx st))) else idx st in
+         mkW (rowsOf st) (cntOf st) (exOf st) (cols st) ix (nidx st) (thrown st)
+             (mkA true (a_rows a) true ((gi, (start, len)) :: a_ent a))
+  end.
+Definition ana_apply (st : wstate) (xs : list aop) : wstate := fold_left ana_step xs st.
 
 (* the adds of a history that were accepted, in order *)
 Fixpoint accepted_from (o : opts) (d : Z) (hd : bool) (st : wstate) (ops : list op) : list add_in :=
@@ -393,8 +421,18 @@ Definition read_event (st : wstate) (i : Z) (t : tid) : list row :=
   let sl := cell (idx st) i t in
   py_slice (get (rowsOf st) t) (fst sl) (fst sl + snd sl).
 
+(* index cell of the analysis dataset for event i: the newest entry written for i, else (0,0) *)
+Definition acell (st : wstate) (i : Z) : Z * Z :=
+  match find (fun e => fst e =? i) (a_ent (ana st)) with Some e => snd e | None => (0, 0) end.
+Definition acolumn (st : wstate) : list (Z * Z) := map (acell st) (zseq (zlen (idx st))).
+
 (* ------------------------------------------------------------------ readers *)
 Inductive tobs := NA | Rows (r : list row) | Crash.
+(* specification of get_data(<analysis dataset>) for event i *)
+Definition read_ana (st : wstate) (i : Z) : tobs :=
+  if negb (a_ex (ana st)) then NA
+  else if negb (a_col (ana st)) then Crash
+  else Rows (py_slice (a_rows (ana st)) (fst (acell st i)) (fst (acell st i) + snd (acell st i))).
 Definition is_nil {A} (l : list A) : bool := match l with [] => true | _ => false end.
 (* _bool_dict: location exists and has size > 0 *)
 Definition avail (st : wstate) (t : tid) : bool := get (exOf st) t && negb (is_nil (get (rowsOf st) t)).
@@ -422,22 +460,40 @@ Definition load_table (st : wstate) (ss se step : Z) (t : tid) : option (list (l
     let tmp := py_slice (get (rowsOf st) t) tmp_start tmp_end in
     Some (map (fun c => py_slice tmp (fst c - tmp_start) (fst c - tmp_start + snd c)) ti)
   else None.
-Definition chunk := per (option (list (list row))).
+(* the same loader applied to the analysis dataset's column *)
+Definition load_ana (st : wstate) (ss se step : Z) : option (list (list row)) :=
+  if a_col (ana st) then
+    let ti := every step (py_slice (acolumn st) ss se) (0, 0) in
+    let tmp_start := list_min (map fst ti) in
+    let tmp_end := list_max (map (fun c => fst c + snd c) ti) in
+    let tmp := py_slice (a_rows (ana st)) tmp_start tmp_end in
+    Some (map (fun c => py_slice tmp (fst c - tmp_start) (fst c - tmp_start + snd c)) ti)
+  else None.
+Definition chunk := (per (option (list (list row))) * option (list (list row)))%type.
 (* np.min of an empty selection raises ValueError *)
 Definition load_data (st : wstate) (ss se step : Z) : exn + chunk :=
-  if is_nil (every step (py_slice (idx st) ss se) zero_cells) && negb (is_nil (cols st))
+  if is_nil (every step (py_slice (idx st) ss se) zero_cells) && (negb (is_nil (cols st)) || a_col (ana st))
   then inl EValue
-  else inr (per_map (fun t _ => load_table st ss se step t) (per_all tt)).
+  else inr (per_map (fun t _ => load_table st ss se step t) (per_all tt), load_ana st ss se step).
 
 (* accessor of one table at position c of the loaded chunk *)
 Definition ev_table (st : wstate) (data : chunk) (c : Z) (t : tid) : tobs :=
   if negb (avail st t) then NA
-  else match get data t with
+  else match get (fst data) t with
        | None => Crash
        | Some l => if (0 <=? c) && (c <? zlen l) then Rows (view t (nthZ l c [])) else Crash
        end.
-Definition ev_obs (st : wstate) (data : chunk) (c : Z) : per tobs :=
-  per_map (fun t _ => ev_table st data c t) (per_all tt).
+(* get_data(<analysis dataset>) at position c of the loaded chunk *)
+Definition ev_ana (st : wstate) (data : chunk) (c : Z) : tobs :=
+  if negb (a_ex (ana st)) then NA
+  else if negb (a_col (ana st)) then Crash          (* "No event-specific data is available" *)
+  else if is_nil (a_rows (ana st)) then Rows []     (* _bool_dict false: np.array([]) *)
+  else match snd data with
+       | None => Crash
+       | Some l => if (0 <=? c) && (c <? zlen l) then Rows (nthZ l c []) else Crash
+       end.
+Definition ev_obs (st : wstate) (data : chunk) (c : Z) : per tobs * tobs :=
+  (per_map (fun t _ => ev_table st data c t) (per_all tt), ev_ana st data c).
 
 Definition dflt (x : option Z) (d : Z) : Z := match x with Some v => v | None => d end.
 (* EventIterator.__init__: (start, stop, step) or the exception raised *)
@@ -456,7 +512,7 @@ Definition iter_init (st : wstate) (start stop step : option Z) : exn + (Z * Z *
 (* repeated __next__: c = _iter_counter, ss/se = _slice_start_event/_slice_end_event.
    Yields (event number, observation) per event. *)
 Fixpoint iter_loop (st : wstate) (k stop step : Z) (fuel : nat) (c ss se : Z) (data : chunk)
-  : exn + list (Z * per tobs) :=
+  : exn + list (Z * (per tobs * tobs)) :=
   match fuel with
   | O => inr []
   | S f =>
@@ -481,14 +537,14 @@ Fixpoint iter_loop (st : wstate) (k stop step : Z) (fuel : nat) (c ss se : Z) (d
       end
   end.
 
-Definition empty_chunk : chunk := per_all None.
+Definition empty_chunk : chunk := (per_all None, None).
 (* all events of EventIterator(file, slice_range=k, start, stop, step); fuel bounds the number of __next__ calls *)
-Definition iterate_fuel (st : wstate) (k : Z) (start stop step : option Z) (fuel : nat) : exn + list (Z * per tobs) :=
+Definition iterate_fuel (st : wstate) (k : Z) (start stop step : option Z) (fuel : nat) : exn + list (Z * (per tobs * tobs)) :=
   match iter_init st start stop step with
   | inl e => inl e
   | inr (s, e, p) => iter_loop st k e p fuel (-1) s s empty_chunk
   end.
-Definition iterate (st : wstate) (k : Z) (start stop step : option Z) : exn + list (Z * per tobs) :=
+Definition iterate (st : wstate) (k : Z) (start stop step : option Z) : exn + list (Z * (per tobs * tobs)) :=
   iterate_fuel st k start stop step (S (Z.to_nat (n_events st))).
 
 (* HDF5Reader: slice_range None means the whole file *)
@@ -496,7 +552,7 @@ Definition reader_k (st : wstate) (k : option Z) : Z := dflt k (n_events st).
 (* HDF5Reader.__iter__ *)
 Definition reader_iter (st : wstate) (k : option Z) := iterate st (reader_k st k) None None None.
 (* HDF5Reader.__getitem__(int): next(EventIterator(slice_range=1, start=key, stop, step=1)) *)
-Definition getitem_int (st : wstate) (key : Z) : exn + per tobs :=
+Definition getitem_int (st : wstate) (key : Z) : exn + (per tobs * tobs) :=
   let stop := if key =? -1 then n_events st else key + 1 in
   match iterate_fuel st 1 (Some key) (Some stop) (Some 1) 1 with
   | inl e => inl e
@@ -504,7 +560,7 @@ Definition getitem_int (st : wstate) (key : Z) : exn + per tobs :=
   | inr (x :: _) => inr (snd x)
   end.
 (* HDF5Reader.__getitem__(slice) *)
-Definition getitem_slice (st : wstate) (k : option Z) (a b s : option Z) : exn + list (Z * per tobs) :=
+Definition getitem_slice (st : wstate) (k : option Z) (a b s : option Z) : exn + list (Z * (per tobs * tobs)) :=
   let n := n_events st in
   let start := dflt a 0 in
   let stop := dflt b n in
@@ -564,7 +620,7 @@ Definition g_load (files : list wstate) (k : Z) (g : gstate) : exn + gstate :=
     match getitem_slice f (Some k) (Some start) (Some stop) None with
     | inl e => inl e
     | inr evs =>
-      match collect (fun x => particle_tags (snd x)) evs with
+      match collect (fun x => particle_tags (fst (snd x))) evs with
       | inl e => inl e
       | inr tags => inr (mkG fi (ei + k) (Some f) tags (map (fun x => thrown_upto f (fst x)) evs) (g_fcounts g))
       end
@@ -618,10 +674,10 @@ Definition flatten_tobs (o : tobs) : list Z :=
   | Crash => [-2]
   | Rows rs => zlen rs :: flat_map (fun r => zlen r :: r) rs
   end.
-Definition fp_obs (o : per tobs) : Z :=
-  fold_left (fun h x => (h * HASH_B + x + 7) mod HASH_P) (flat_map flatten_tobs (per_list o)) 0.
+Definition fp_obs (o : per tobs * tobs) : Z :=
+  fold_left (fun h x => (h * HASH_B + x + 7) mod HASH_P) (flat_map flatten_tobs (per_list (fst o) ++ [snd o])) 0.
 
-Record filecase := mkFile { f_det : Z; f_hasdet : bool; f_opts : opts; f_ops : list op }.
+Record filecase := mkFile { f_det : Z; f_hasdet : bool; f_opts : opts; f_ops : list op; f_aops : list aop }.
 
 Inductive events_res := EvOk (n : Z) (evs : list (tobs * tobs * tobs * tobs * tobs * tobs)) | EvErr (code : Z).
 Inductive file_res :=
@@ -648,24 +704,25 @@ Fixpoint run_ops (o : opts) (d : Z) (hd : bool) (st : wstate) (ops : list op)
     match run_ops o d hd (fst sa) r with (s, outs, cs) => (s, outcome_code (snd sa) :: outs, cs) end
   end.
 
-Definition final_state (f : filecase) : wstate := run (f_opts f) (f_det f) (f_hasdet f) (f_ops f).
+Definition final_state (f : filecase) : wstate := ana_apply (run (f_opts f) (f_det f) (f_hasdet f) (f_ops f)) (f_aops f).
 
 Definition events_of (st : wstate) : events_res :=
   match reader_iter st None with
   | inl e => EvErr (exn_code e)
-  | inr l => EvOk (n_events st) (map (fun x => per_tuple (snd x)) l)
+  | inr l => EvOk (n_events st) (map (fun x => per_tuple (fst (snd x))) l)
   end.
 
 Definition run_file (f : filecase) : file_res :=
   if negb (opts_valid (f_opts f)) then RCtor 1 else
   match run_ops (f_opts f) (f_det f) (f_hasdet f) init_state (f_ops f) with
-  | (st, outs, cs) =>
+  | (st0, outs, cs) =>
+    let st := ana_apply st0 (f_aops f) in
     RFile outs cs (map tid_code (cols st)) (map (fun r => per_list r) (idx st))
           (map zlen (per_list (rowsOf st))) (per_list (exOf st))
           (match thrown st with Some x => x | None => 0 end) (events_of st)
   end.
 
-Definition fps (r : exn + list (Z * per tobs)) : query_res :=
+Definition fps (r : exn + list (Z * (per tobs * tobs))) : query_res :=
   match r with inl e => QErr (exn_code e) | inr l => QOk (map (fun x => fp_obs (snd x)) l) end.
 
 Definition run_query (sts : list wstate) (q : query) : query_res :=
